@@ -125,80 +125,7 @@ def check(ctx):
     o = ctx.ob('ledger_day_key', 'R10',
                "the ledger stores midnight(day) and both query branches compare the stored day with midnight(day) and the resource", floor=3)
 
-    def ledger(o):
-        rf = prog.func('schedule._ResourceUsage.reserve')
-        qf = prog.func('schedule._ResourceUsage.reserved')
-        ex = Expander(prog, rf, ctx.typer)
-        rows = [c for c in walk_no_nested(rf.node) if isinstance(c, ast.Call) and isinstance(c.func, ast.Name)
-                and c.func.id == 'ResourceUsageRow']
-        appended = [c for c in facts.calls_named(rf, 'append')]
-        if len(rows) != 1 or len(appended) != 1 or not any(x is rows[0] for x in ast.walk(appended[0])):
-            o.refute(rf, rf.node, 'reserve', "reserve() must append exactly one ResourceUsageRow to the ledger")
-            return
-        row = ex.expand(rows[0])
-        p = rf.params
-        if len(row.args) != 4 or len(p) < 5:
-            o.undecided(rf, rows[0], rows[0], "unexpected row constructor shape")
-            return
-        d = facts.is_midnight_of(row.args[1])
-        if not (isinstance(row.args[0], ast.Name) and row.args[0].id == p[1] and d is not None and src(d) == p[2]
-                and isinstance(row.args[2], ast.Name) and row.args[2].id == p[3]
-                and isinstance(row.args[3], ast.Name) and row.args[3].id == p[4]):
-            o.refute(rf, rows[0], rows[0], f"row is `{src(row)}`; expected (resource, midnight(date), task, units)")
-        else:
-            o.site(rf, rows[0], src(row))
-        rets = [n for n in walk_no_nested(rf.node) if isinstance(n, ast.Return)]
-        if len(rets) != 1 or not (isinstance(rets[0].value, ast.Name) and rets[0].value.id == p[4]):
-            o.refute(rf, rf.node, 'return', "reserve() must return exactly the units it stored (the fill loops subtract the return value)")
-        # query
-        exq = Expander(prog, qf, ctx.typer)
-        comps = [n for n in walk_no_nested(qf.node) if isinstance(n, (ast.ListComp, ast.GeneratorExp))]
-        if not comps:
-            o.undecided(qf, qf.node, 'reserved', "no comprehension over the ledger rows found")
-        qp = qf.params
-        for comp in comps:
-            parts = facts.comp_parts(comp)
-            if parts is None:
-                o.undecided(qf, comp, comp, "multi-generator comprehension")
-                continue
-            elt, tgt, it, ifs = parts
-            if not (isinstance(tgt, ast.Name) and match("$s.rows", it) and match(f"{tgt.id}.units", elt)):
-                o.undecided(qf, comp, comp, "comprehension is not `row.units for row in self.rows if ...`")
-                continue
-            atoms = []
-            for c in ifs:
-                atoms += facts.split_conj(exq.expand(c, exq.flow.node_of_expr(comp)), True)
-            has_res = has_day = False
-            extra = []
-            for a, pol in atoms:
-                m = match(f"{tgt.id}.resource == $x", a) or match(f"$x == {tgt.id}.resource", a)
-                if m and pol and src(m['x']) == qp[1]:
-                    has_res = True
-                    continue
-                m = match(f"{tgt.id}.date == $x", a) or match(f"$x == {tgt.id}.date", a)
-                if m and pol:
-                    dd = facts.is_midnight_of(m['x'])
-                    if dd is not None and src(dd) == qp[2]:
-                        has_day = True
-                    else:
-                        o.refute(qf, comp, a, f"ledger rows are compared with `{src(m['x'])}` instead of midnight({qp[2]}): "
-                                              f"rows stored under the day key are missed")
-                        has_day = None
-                    continue
-                m = match(f"{tgt.id}.task == $x", a) or match(f"$x == {tgt.id}.task", a)
-                if m and pol and len(qp) > 3 and src(m['x']) == qp[3]:
-                    extra.append('task')
-                    continue
-                o.undecided(qf, comp, a, "unrecognised row filter")
-            if has_day is None:
-                continue
-            if not has_res:
-                o.refute(qf, comp, comp, "ledger sum does not filter by resource")
-            elif not has_day:
-                o.refute(qf, comp, comp, "ledger sum does not filter by day")
-            else:
-                o.site(qf, comp, "filters: resource, midnight(day)" + (", task" if extra else ''))
-    ctx.guarded(o, ledger)
+    ctx.guarded(o, lambda o: ledger_shape(ctx, o))
 
     # ------------------------------------------------------------------------------------------------ resource table
     o = ctx.ob('resource_by_name', 'R5',
@@ -419,6 +346,82 @@ def check(ctx):
                 if not hit:
                     o.refute(f, r, r, "search returns a date that was not tested for free capacity")
     ctx.guarded(o, search)
+
+
+def ledger_shape(ctx, o):
+    prog = ctx.prog
+    rf = prog.func('schedule._ResourceUsage.reserve')
+    qf = prog.func('schedule._ResourceUsage.reserved')
+    ex = Expander(prog, rf, ctx.typer)
+    rows = [c for c in walk_no_nested(rf.node) if isinstance(c, ast.Call) and isinstance(c.func, ast.Name)
+            and c.func.id == 'ResourceUsageRow']
+    appended = [c for c in facts.calls_named(rf, 'append')]
+    if len(rows) != 1 or len(appended) != 1 or not any(x is rows[0] for x in ast.walk(appended[0])):
+        o.refute(rf, rf.node, 'reserve', "reserve() must append exactly one ResourceUsageRow to the ledger")
+        return
+    row = ex.expand(rows[0])
+    p = rf.params
+    if len(row.args) != 4 or len(p) < 5:
+        o.undecided(rf, rows[0], rows[0], "unexpected row constructor shape")
+        return
+    d = facts.is_midnight_of(row.args[1])
+    if not (isinstance(row.args[0], ast.Name) and row.args[0].id == p[1] and d is not None and src(d) == p[2]
+            and isinstance(row.args[2], ast.Name) and row.args[2].id == p[3]
+            and isinstance(row.args[3], ast.Name) and row.args[3].id == p[4]):
+        o.refute(rf, rows[0], rows[0], f"row is `{src(row)}`; expected (resource, midnight(date), task, units)")
+    else:
+        o.site(rf, rows[0], src(row))
+    rets = [n for n in walk_no_nested(rf.node) if isinstance(n, ast.Return)]
+    if len(rets) != 1 or not (isinstance(rets[0].value, ast.Name) and rets[0].value.id == p[4]):
+        o.refute(rf, rf.node, 'return', "reserve() must return exactly the units it stored (the fill loops subtract the return value)")
+    # query
+    exq = Expander(prog, qf, ctx.typer)
+    comps = [n for n in walk_no_nested(qf.node) if isinstance(n, (ast.ListComp, ast.GeneratorExp))]
+    if not comps:
+        o.undecided(qf, qf.node, 'reserved', "no comprehension over the ledger rows found")
+    qp = qf.params
+    for comp in comps:
+        parts = facts.comp_parts(comp)
+        if parts is None:
+            o.undecided(qf, comp, comp, "multi-generator comprehension")
+            continue
+        elt, tgt, it, ifs = parts
+        if not (isinstance(tgt, ast.Name) and match("$s.rows", it) and match(f"{tgt.id}.units", elt)):
+            o.undecided(qf, comp, comp, "comprehension is not `row.units for row in self.rows if ...`")
+            continue
+        atoms = []
+        for c in ifs:
+            atoms += facts.split_conj(exq.expand(c, exq.flow.node_of_expr(comp)), True)
+        has_res = has_day = False
+        extra = []
+        for a, pol in atoms:
+            m = match(f"{tgt.id}.resource == $x", a) or match(f"$x == {tgt.id}.resource", a)
+            if m and pol and src(m['x']) == qp[1]:
+                has_res = True
+                continue
+            m = match(f"{tgt.id}.date == $x", a) or match(f"$x == {tgt.id}.date", a)
+            if m and pol:
+                dd = facts.is_midnight_of(m['x'])
+                if dd is not None and src(dd) == qp[2]:
+                    has_day = True
+                else:
+                    o.refute(qf, comp, a, f"ledger rows are compared with `{src(m['x'])}` instead of midnight({qp[2]}): "
+                                          f"rows stored under the day key are missed")
+                    has_day = None
+                continue
+            m = match(f"{tgt.id}.task == $x", a) or match(f"$x == {tgt.id}.task", a)
+            if m and pol and len(qp) > 3 and src(m['x']) == qp[3]:
+                extra.append('task')
+                continue
+            o.undecided(qf, comp, a, "unrecognised row filter")
+        if has_day is None:
+            continue
+        if not has_res:
+            o.refute(qf, comp, comp, "ledger sum does not filter by resource")
+        elif not has_day:
+            o.refute(qf, comp, comp, "ledger sum does not filter by day")
+        else:
+            o.site(qf, comp, "filters: resource, midnight(day)" + (", task" if extra else ''))
 
 
 def _origin_node(f, amount_expr, sub, ex):
